@@ -30,7 +30,7 @@ STUBS = LOOP_STUBS + [
 ASSUMPTIONS = ["peer byte stream = 0,1,2,... so that order / loss / duplication are visible; chunk lengths 1..3, max_bytes in [1,3] symbolic"]
 OUTSIDE = ["real kernel buffer behaviour, TCP loopback, 'several socket buffers' worth of data", "uvloop transports", "receive_fds/send_fds, datagram sockets", "trio"]
 MUST_REACH = ["tcp:chunk-split-on-max_bytes", "tcp:eof-after-data", "tcp:data-arrived-before-first-receive", "tcp:send-waited-for-write-gate", "tcp:closed-while-receiving", "tcp:busy-rejected",
-              "unix:partial-recv", "unix:partial-send", "unix:eof", "unix:closed-while-receiving", "unix:busy-rejected", "tcp:closed-with-unread-inbound-data"]
+              "unix:partial-recv", "unix:partial-send", "unix:eof", "unix:closed-while-receiving", "unix:busy-rejected", "tcp:closed-with-unread-inbound-data", "tcp:aclose-interrupted-by-cancellation", "unix:receive-cancelled"]
 
 
 class FakeTransport(asyncio.Transport):
@@ -124,7 +124,7 @@ class FakeTransport(asyncio.Transport):
             self.protocol.connection_lost(exc)
 
 
-def tcp(sym, cov, mode, eager=False, T=1, N=4, busy=False):
+def tcp(sym, cov, mode, eager=False, T=1, N=4, busy=False, close_cancelled=False):
     """mode: 'recv' (peer sends N bytes in symbolic chunks, reader with symbolic delays and max_bytes)
              'send' (local sends, write gate closes/opens at symbolic instants)
              'close' (aclose() by another task at a symbolic instant while receiving / before sending)"""
@@ -148,7 +148,7 @@ def tcp(sym, cov, mode, eager=False, T=1, N=4, busy=False):
         sym.assume(t1 <= t2)
         sym.assume(t2 <= te)
         mb = sym.int("mb", 1, 3)
-        rd = sym.int("rd", 0, T)  # reader delay between receives
+        rd = 0 if close_cancelled else sym.int("rd", 0, T)  # reader delay between receives
         fd = sym.int("fd", 0, T + 1) if (mode == "recv" and not busy) else 0  # delay before the first receive
         total = l1 + l2
     if mode == "send":
@@ -161,6 +161,7 @@ def tcp(sym, cov, mode, eager=False, T=1, N=4, busy=False):
     if mode == "close":
         xt = sym.int("xt", 0, T + 2)
         xj = sym.int("xj", 0, 1)
+        xc = close_cancelled  # aclose() runs in an already cancelled scope (`async with stream:` unwinding)
 
     async def main():
         # the stream is obtained through the real AsyncIOBackend.connect_tcp(); only loop.create_connection is the stub
@@ -189,7 +190,12 @@ def tcp(sym, cov, mode, eager=False, T=1, N=4, busy=False):
             data = bytes(range(8))
             loop.env_at(t1, 0, lambda: deliver("data", data[:l1]))
             loop.env_at(t2, 1, lambda: deliver("data", data[l1:l1 + l2]))
-            loop.env_at(te, 2, lambda: deliver("eof"))
+            def deliver_eof():
+                if not tr.lost and not tr.closing:
+                    out["peer_eof_delivered"] = True
+                deliver("eof")
+
+            loop.env_at(te, 2, deliver_eof)
 
             async def reader():
                 await anyio.sleep(fd)  # the reader may start late
@@ -235,12 +241,21 @@ def tcp(sym, cov, mode, eager=False, T=1, N=4, busy=False):
                         await anyio.sleep(0)
                 out["closed_at"] = loop.cycles
                 out["chunks_before_close"] = len(out["chunks"])
-                await stream.aclose()
+                if xc:
+                    with anyio.CancelScope() as sc_:
+                        sc_.cancel()
+                        await stream.aclose()
+                    cov.hit("tcp:aclose-interrupted-by-cancellation", sc_.cancelled_caught)
+                else:
+                    await stream.aclose()
+                out["close_returned_at"] = loop.cycles
                 try:
                     await stream.send(b"x")
                     bad("send-after-close-accepted")
                 except ClosedResourceError:
                     pass
+                except BrokenResourceError:
+                    bad("send-on-locally-closed-stream-raised-BrokenResourceError")
 
             async with anyio.create_task_group() as tg:
                 tg.start_soon(reader)
@@ -304,6 +319,8 @@ def tcp(sym, cov, mode, eager=False, T=1, N=4, busy=False):
             cov.hit("tcp:chunk-split-on-max_bytes", len(out["chunks"]) > 2)
         else:
             chk(out.get("end") in ("closed", "eof"), "receive-after-close-wrong-ending", out.get("end"))
+            if out.get("end") == "eof":
+                chk(out.get("peer_eof_delivered"), "end-of-stream-on-locally-closed-stream-without-peer-eof")
             cov.hit("tcp:closed-while-receiving", out.get("end") == "closed")
             tr_ = out["tr"]
             if getattr(tr_, "peer_sees", None) is not None:
@@ -414,6 +431,9 @@ def unix(sym, cov, mode, eager=False, T=1):
         xt = sym.int("xt", 0, T + 2)
     if mode == "send-busy":
         sd = sym.int("sd", 0, 4)
+    if mode == "recv-cancel":
+        ct = sym.int("ct", 0, T + 2)
+        cj = sym.int("cj", 0, 2)
 
     def fire_readable():
         ent = readers.get(id(sock))
@@ -437,10 +457,25 @@ def unix(sym, cov, mode, eager=False, T=1):
             sock.eof = True
             fire_readable()
 
+        cur: dict = {}
+
+        def cancel_current_receive():
+            if "sc" in cur:
+                cov.hit("unix:receive-cancelled")
+                cur["sc"].cancel()
+
         async def reader():
             while True:
                 try:
-                    c = await stream.receive(mb)
+                    if mode == "recv-cancel":
+                        # each attempt in its own scope; a cancelled attempt is simply retried: nothing may be lost
+                        with anyio.CancelScope() as sc_:
+                            cur["sc"] = sc_
+                            c = await stream.receive(mb)
+                        if sc_.cancelled_caught:
+                            continue
+                    else:
+                        c = await stream.receive(mb)
                 except EndOfStream:
                     out["end"] = "eof"
                     return
@@ -489,12 +524,14 @@ def unix(sym, cov, mode, eager=False, T=1):
             except ClosedResourceError:
                 pass
 
-        if mode in ("recv", "close"):
+        if mode in ("recv", "close", "recv-cancel"):
             loop.env_at(t1, 0, arrive)
-            if mode == "recv":
+            if mode in ("recv", "recv-cancel"):
                 loop.env_at(te, 1, arrive_eof)
+            if mode == "recv-cancel":
+                loop.env_at(ct, cj, cancel_current_receive)
         async with anyio.create_task_group() as tg:
-            if mode in ("recv", "close"):
+            if mode in ("recv", "close", "recv-cancel"):
                 tg.start_soon(reader)
             if mode in ("send", "send-busy"):
                 tg.start_soon(writer)
@@ -511,11 +548,11 @@ def unix(sym, cov, mode, eager=False, T=1):
     except CycleBudget:
         raise Violation("liveness:CycleBudget")
     chk(not viol, viol[0][0] if viol else "", viol[:3])
-    if mode in ("recv", "close"):
+    if mode in ("recv", "close", "recv-cancel"):
         got = b"".join(out["chunks"])
         want = bytes(range(8))[:l1]
         chk(want[: len(got)] == got, "received-bytes-not-a-prefix-of-sent", {"got": got.hex(), "sent": want.hex()})
-        if mode == "recv":
+        if mode in ("recv", "recv-cancel"):
             chk(out.get("end") == "eof" and got == want, "bytes-lost-or-no-end-of-stream", {"end": out.get("end"), "got": got.hex(), "sent": want.hex()})
             cov.hit("unix:eof")
         else:
@@ -546,8 +583,10 @@ def units(tier):
     us.append({"name": "tcp send", "fn": tcp, "params": {"mode": "send"}, "budget_s": B_})
     us.append({"name": "tcp send busy", "fn": tcp, "params": {"mode": "send", "busy": True, "T": 0}, "budget_s": B_})
     us.append({"name": "tcp close", "fn": tcp, "params": {"mode": "close"}, "budget_s": B_})
+    us.append({"name": "tcp close, aclose() interrupted by cancellation", "fn": tcp, "params": {"mode": "close", "close_cancelled": True}, "budget_s": B_})
     us.append({"name": "unix recv", "fn": unix, "params": {"mode": "recv"}, "budget_s": B_})
     us.append({"name": "unix send", "fn": unix, "params": {"mode": "send"}, "budget_s": B_})
+    us.append({"name": "unix recv, a receive attempt cancelled and retried", "fn": unix, "params": {"mode": "recv-cancel"}, "budget_s": B_})
     us.append({"name": "unix send busy", "fn": unix, "params": {"mode": "send-busy"}, "budget_s": B_})
     us.append({"name": "unix close", "fn": unix, "params": {"mode": "close"}, "budget_s": B_})
     if not quick:
